@@ -158,6 +158,27 @@ Theorem C01td_interpreter_value_and_axis_order : forall n sl arr e0 pe l r,
 Proof. exact exec_program_dfs_correct. Qed.
 Print Assumptions C01td_interpreter_value_and_axis_order.
 
+(* (9) ANY traversal order (tree.traverse(order=...)).  valid_order_b t order replays the
+       order on a frontier of available subtrees, initially the leaves: each entry
+       (flag, Node a b) needs a and b available and distinct and makes Node a b available in
+       their place; all flags are false except the last entry, which is (true, t).  It is an
+       executable check (the harness can run it on the order the real code produced).  For every
+       order that passes, the interpreter returns exactly the recursive execution ... *)
+Theorem C01td_interpreter_any_order_is_recursive : forall n sl arr e0 pe t order,
+  NoDup (leaves t) -> valid_order_b t order = true ->
+  exec_program n sl arr e0 (program n sl pe t order) t = run_root_x n sl arr e0 pe t.
+Proof. exact exec_program_any_order. Qed.
+Print Assumptions C01td_interpreter_any_order_is_recursive.
+
+(* ... hence value and axis order, for every prefer_einsum and every valid order *)
+Theorem C01td_interpreter_any_order_value_and_axis_order : forall n sl arr e0 pe t order,
+  wf_net n -> full_tree n t -> valid_order_b t order = true ->
+  let res := exec_program n sl arr e0 (program n sl pe t order) t in
+  fst res = map (dim n) (out_inds n sl) /\
+  forall e, agree_removed sl e0 e -> snd res (map e (out_inds n sl)) = einsum_spec n sl arr e.
+Proof. exact exec_program_any_order_correct. Qed.
+Print Assumptions C01td_interpreter_any_order_value_and_axis_order.
+
 (* non-vacuity: 'ab,bc->ca' -- the root can be done by tensordot, and needs the transpose
    [1;0]; a 3-tensor chain where an inner node is a tensordot without transpose *)
 Local Open Scope nat_scope.
@@ -181,3 +202,13 @@ Proof.
   cbn zeta. split; [|split; [|split; [|split]]]; try (vm_compute; reflexivity).
   split; [repeat constructor; cbn; intuition discriminate|]. intros k [<-|[<-|[]]]; cbn; auto.
 Qed.
+
+(* the depth-first order and a breadth-first-like order of a 4-leaf tree both pass the
+   order check; an order with a parent before its child does not *)
+Example C01td_valid_orders :
+  let a := Node (Leaf 0) (Leaf 3) in let b := Node (Leaf 1) (Leaf 2) in let t := Node a b in
+  valid_order_b t (traverse_dfs t) = true /\
+  valid_order_b t [(false, b); (false, a); (true, t)] = true /\
+  valid_order_b t [(false, a); (true, t); (false, b)] = false /\
+  valid_order_b t [(false, a); (false, b); (false, t)] = false.
+Proof. cbn zeta. repeat split; vm_compute; reflexivity. Qed.
